@@ -33,6 +33,34 @@ pub fn run(mut config: Config) -> ::anyhow::Result<()> {
         ));
     }
 
+    // Responses that don't fit in the response buffer can't be sent, so
+    // refuse configurations that allow larger responses
+    {
+        let bytes_per_peer = if config.network.use_ipv6 { 18 } else { 6 };
+
+        let max_announce_response_len = 20 + bytes_per_peer * config.protocol.max_response_peers;
+        let max_scrape_response_len = 8 + 12 * (config.protocol.max_scrape_torrents as usize);
+
+        let response_buffer_len = workers::socket::response_buffer_len(&config);
+
+        if max_announce_response_len > response_buffer_len {
+            return Err(anyhow::anyhow!(
+                "protocol.max_response_peers is too high: an announce response with {} peers takes up {} bytes, but response buffers hold {} bytes",
+                config.protocol.max_response_peers,
+                max_announce_response_len,
+                response_buffer_len
+            ));
+        }
+        if max_scrape_response_len > response_buffer_len {
+            return Err(anyhow::anyhow!(
+                "protocol.max_scrape_torrents is too high: a scrape response with {} torrents takes up {} bytes, but response buffers hold {} bytes",
+                config.protocol.max_scrape_torrents,
+                max_scrape_response_len,
+                response_buffer_len
+            ));
+        }
+    }
+
     if config.socket_workers == 0 {
         config.socket_workers = available_parallelism().map(Into::into).unwrap_or(1);
     };
